@@ -499,6 +499,10 @@ func (e *Engine) feasible(c *Term) bool {
 			others = []string{"z3-new", "z3"}
 		}
 		r2, m2, _, _ := Portfolio(script, e.job.FeasTimeout, e.stats, "feasibility-portfolio", others, false)
+		if r2 == Unknown {
+			// a loaded machine makes short wall-clock timeouts meaningless: one patient retry with every back end
+			r2, m2, _, _ = Portfolio(script, 6*e.job.FeasTimeout, e.stats, "feasibility-portfolio-retry", []string{"z3", "z3-new", "cvc5", "cvc5-int"}, false)
+		}
 		switch r2 {
 		case Sat:
 			memo := map[int]uint64{}
